@@ -1,12 +1,15 @@
 import Asn1Verif.Proto.Schema
 import Asn1Verif.Proto.SchemaLemmas
+import Asn1Verif.Proto.IntWidthLemmas
 /-
   C18 — Protobuf bytes agree with the generated .proto schema.
 
   Models: `Proto/Schema.lean` (mirror of asn1rs-model/src/protobuf.rs and
   asn1rs-model/src/generate/protobuf.rs: `RustType → ProtobufType`, numbering of
   `append_definition`), `Proto/Codec.lean` (the writer; a value is written as a list of `Item`s =
-  `write_tagged_*` calls, nested messages inside their content).  Lemmas: `Proto/SchemaLemmas.lean`.
+  `write_tagged_*` calls, nested messages inside their content), `Codegen/IntType.lean` (the Rust
+  integer type the converter selects, from which the schema takes `uint32/uint64/sint32/sint64`).
+  Lemmas: `Proto/SchemaLemmas.lean`, `Proto/IntWidthLemmas.lean`.
   The text of the generated files is compared with the schema model by the `proto wire` requests
   of `./check C18`, and the real octets are decoded under the real files by protoc.
 -/
@@ -72,6 +75,89 @@ theorem schema_oneof_agree (alts : Fields) (i : Nat) (x : Val) (content : List I
     ∃ row, row? alts i = some row ∧ ∀ it ∈ content, it.num = row.1 ∧ it.fmt = row.2.wire := by
   obtain ⟨k, t, hg, hall⟩ := encAltI_row alts i i x content h
   exact ⟨(i + 1, ptype t), schema_row alts i k t hg, hall⟩
+
+/-! ### INTEGER: the varint is the encoding of the declared scalar type (F-proto-int-ext-width repaired) -/
+
+/-- The wire type says only "varint"; which number a schema-driven parser makes of it depends on
+    the declared scalar type (`uint32`, `uint64`: the plain value; `sint32`, `sint64`: zig-zag).
+    For every INTEGER constraint with `i64` bounds and a non-empty root, extensible or not:
+    the encoding `write_number` / `read_number` select from the constraint constants is the one of
+    the scalar type `definition_type_to_protobuf_type` declares for the Rust type the converter
+    selected — and that is what the schema model says for the descriptor of the generated code
+    (`Schema.ptype`, compared with the real files by the `proto wire` requests). -/
+theorem schema_int_encoding_agree (min max : Option Int) (ext : Bool)
+    (hmin : Codegen.IntType.OptInI64 min) (hmax : Codegen.IntType.OptInI64 max)
+    (hroot : RootNonEmpty min max) :
+    (generatedClass min max ext).ptype = ptypeOfRust (Codegen.IntType.cascade min max ext).kind ∧
+    ptype (generatedTy min max ext) = ptypeOfRust (Codegen.IntType.cascade min max ext).kind :=
+  ⟨generatedClass_schema min max ext hmin hmax hroot, ptype_generatedTy min max ext hmin hmax hroot⟩
+
+/-- … in particular an extensible constraint is written in the 64-bit encoding its schema type
+    (`uint64` / `sint64`) demands, whatever its root -/
+theorem schema_int_ext_is_64 (min max : Option Int)
+    (hmin : Codegen.IntType.OptInI64 min) (hmax : Codegen.IntType.OptInI64 max)
+    (hroot : RootNonEmpty min max) :
+    (ptype (generatedTy min max true) = .uint64 ∧ generatedClass min max true = .u64) ∨
+    (ptype (generatedTy min max true) = .sint64 ∧ generatedClass min max true = .s64) := by
+  obtain ⟨h1, h2⟩ := schema_int_encoding_agree min max true hmin hmax hroot
+  rw [h2, ← h1]
+  rcases intClass_ext (Codegen.IntType.cascade min max true).constMin
+    (Codegen.IntType.cascade min max true).constMax with h | h
+  · left
+    have : generatedClass min max true = .u64 := by
+      simpa [generatedClass, Codegen.IntType.cascade, Codegen.IntType.extCascade_ext] using h
+    exact ⟨by rw [this]; rfl, this⟩
+  · right
+    have : generatedClass min max true = .s64 := by
+      simpa [generatedClass, Codegen.IntType.cascade, Codegen.IntType.extCascade_ext] using h
+    exact ⟨by rw [this]; rfl, this⟩
+
+/-- What the repair changed on the wire (extensible INTEGER: uint32 → uint64, sint32 → sint64):
+    the varint of every value the 32-bit encodings carried in standard form is the same in the
+    64-bit encoding — every `u32`, and every `-2^30 ≤ v < 2^30` under zig-zag.  Outside that range the
+    old sint32 writer sign-extended the 32-bit zig-zag value to a ten-octet varint (regression
+    example below), which only its own `as u32` reader undid. -/
+theorem int_ext_wire_compat (v : Int) :
+    (0 ≤ v → v < 2 ^ 32 → intToVarint .u32 v = intToVarint .u64 v) ∧
+    (-(2 ^ 30) ≤ v → v < 2 ^ 30 → intToVarint .s32 v = intToVarint .s64 v) :=
+  ⟨intToVarint_u32_eq_u64 v, intToVarint_s32_eq_s64 v⟩
+
+/-- both hypotheses are met by 200 and by -5; the bound 2^30 is sharp on both sides -/
+example : intToVarint .u32 200 = 200 ∧ intToVarint .s32 (-5) = 9 ∧ intToVarint .s64 (-5) = 9 ∧
+    intToVarint .s32 (2 ^ 30) ≠ intToVarint .s64 (2 ^ 30) ∧
+    intToVarint .s32 (-(2 ^ 30) - 1) ≠ intToVarint .s64 (-(2 ^ 30) - 1) := by decide
+
+/-- non-vacuity: INTEGER (0..255, ...) → `u64`, `uint64`, class u64; INTEGER (-100..100, ...) →
+    `i64`, `sint64`, class s64; INTEGER (-100..100) → `i8`, `sint32`, class s32 -/
+example :
+    generatedClass (some 0) (some 255) true = .u64 ∧
+    (Codegen.IntType.cascade (some 0) (some 255) true).kind = .u64 ∧
+    generatedClass (some (-100)) (some 100) true = .s64 ∧
+    (Codegen.IntType.cascade (some (-100)) (some 100) true).kind = .i64 ∧
+    generatedClass (some (-100)) (some 100) false = .s32 ∧
+    (Codegen.IntType.cascade (some (-100)) (some 100) false).kind = .i8 := by decide
+
+/-- the hypothesis `RootNonEmpty` cannot be dropped: `INTEGER (5..-3, ...)` (no value in the root;
+    meaningless, but accepted by the front end) becomes an `i64` because its upper bound is
+    negative — `sint64` in the schema — while the codec looks at the lower bound only and writes
+    uint64.  (Round trip is not affected: `int_roundtrip_generated` has no such hypothesis.) -/
+example : generatedClass (some 5) (some (-3)) true = .u64 ∧
+    (Codegen.IntType.cascade (some 5) (some (-3)) true).kind = .i64 := by decide
+
+/-- regression (former witnesses of F-proto-int-ext-width): in INTEGER (0..255, ...) (`u64`,
+    `uint64 value = 1`) the value `u64::MAX` (−1 in the `i64` view of the codec) was written as
+    `08 ff ff ff ff 0f` = 4294967295 and is now the ten-octet varint of 2^64 − 1; in INTEGER
+    (-100..100, ...) (`i64`, `sint64 value = 1`) the value 2^30 was written as the sign-extended
+    32-bit zig-zag value (ten octets, which a sint64 parser decodes to 2^63 − 2^30) and is now
+    the varint of 2^31, the sint64 encoding of 2^30 -/
+example :
+    encode (wrap (.int (some 0) (some 255) true 64 true)) (wrapV (.int (-1))) =
+      ok [0x08#8, 0xff#8, 0xff#8, 0xff#8, 0xff#8, 0xff#8, 0xff#8, 0xff#8, 0xff#8, 0xff#8, 0x01#8] ∧
+    encode (wrap (.int (some (-100)) (some 100) true 64 true)) (wrapV (.int 1073741824)) =
+      ok [0x08#8, 0x80#8, 0x80#8, 0x80#8, 0x80#8, 0x08#8] ∧
+    varintToSint64 (2 ^ 31) = 1073741824#64 ∧
+    sint32ToVarint 1073741824#32 = 2 ^ 64 - 2 ^ 31 ∧
+    varintToSint64 (2 ^ 64 - 2 ^ 31) = BitVec.ofNat 64 (2 ^ 63 - 2 ^ 30) := by decide
 
 /-- non-vacuity of the hypotheses of `schema_wire_agree_partial`:
     SEQUENCE { a INTEGER (0..7), b BOOLEAN OPTIONAL, n NULL }, component 1 -/
